@@ -230,6 +230,17 @@ Section Guards.
         else Ok buf
     end.
 
+  (* Reads through one handle.  read_frame_payload_bytes takes the handle (&mut self) but consults only
+     header fields, data_end and the file: no memo, no cache of earlier verdicts.  The model makes that
+     explicit: a handle carries the history of payload reads made through it, and the answer ignores it. *)
+  Definition handle_read (ctx : N * N * N) (file : bytes) (hist : list frame) (fr : frame) : list frame * outcome bytes :=
+    (fr :: hist, read_frame_payload_bytes ctx file fr).
+  Fixpoint run_reads (ctx : N * N * N) (file : bytes) (hist : list frame) (sched : list frame) : list (outcome bytes) :=
+    match sched with
+    | [] => []
+    | fr :: r => let '(h', a) := handle_read ctx file hist fr in a :: run_reads ctx file h' r
+    end.
+
   (* the same function before 55d5bb8 (no comparison): kept to state what the fix closed *)
   Definition read_frame_payload_bytes_unchecked (ctx : N * N * N) (file : bytes) (fr : frame) : outcome bytes :=
     match validate_frame_bounds ctx (N.of_nat (length file)) fr with
